@@ -164,6 +164,12 @@ def run_l1_property(spec, tier, seed, replay=None, proof=None):
         if getattr(spec, "overlap", False):
             from .props_conc import overlap_cases
             cases += overlap_cases(spec.id, rng, tier)
+    if any(c.mode == "bin" for c in cases) and not os.environ.get("TSS_SERVER_BIN"):
+        # some cases drive the real executable
+        okb, sbin, blog = build.build_server_bin()
+        if not okb:
+            raise RuntimeError("server binary build failed:\n" + blog[-1500:])
+        os.environ["TSS_SERVER_BIN"] = sbin
     results = {b: run_cases(binp, [c for c in cases if c.meta.get("only", b) == b], b, seed) for b in spec.backends}
     problems = []
     for c in cases:
